@@ -13,6 +13,11 @@ Post-condition monitors on what the real code returns:
   edges; PatchCollection polygons, as a multiset of vertex sets == the edges with
   3..max_order+1 nodes (complex: maximal simplices of the max_order-skeleton with >= 3
   nodes, and all two-node simplices).
+
+Keys: "<function>|<trigger>|<clause>"; the trigger of a polygon clause says whether max_order
+truncates, the trigger of a layout clause is the node-count class.  `draw` only delegates to
+draw_nodes and draw_hyperedges / draw_simplices: a clause that the component already failed
+for the same network, style shape and max_order is not reported a second time under `draw`.
 """
 import random as _random
 from collections import Counter
@@ -35,11 +40,11 @@ RULE = (
     "where the network has at least one node (layout) or one edge with >= 2 nodes (draw)"
 )
 ASSUMPTIONS = [
-    "labels: ints 0..k, gapped/negative ints, strings; never mixed inside one network; <= 10 nodes, <= 9 edges, edge sizes 0..5",
+    "labels: ints 0..k, gapped/negative ints, strings; never mixed inside one network; <= 10 nodes, <= 10 edges, edge sizes 0..5",
     "positions handed to draw functions have 2n pairwise distinct coordinates (min separation 0.01), so geometry identifies node IDs; points are matched with tolerance 1e-7",
     "hull=False only; node_labels / hyperedge_labels are not driven (the statement is about markers, lines and polygons)",
     "per-ID style containers are never empty: with no dyad (no polygon) to plot the dyad (edge) style falls back to a scalar",
-    "max_order=0 is not driven (draw treats it as None, draw_hyperedges as 'no polygon'); max_order in {None, 1, 2, 3, max, max+2}",
+    "max_order=0 is not driven (draw treats it as None, draw_hyperedges as 'no polygon'); max_order in {None, 1..max-1, max, max+2} where max = largest edge order of the network",
     "simplicial complex with max_order=k: polygons expected = maximal simplices (>= 3 nodes) of the sub-complex of simplices with <= k+1 nodes (what draw_simplices documents: 'SC without simplices larger than max_order')",
     "edge-stat style arguments for a SimplicialComplex are keyed by IDs the drawn (internal) hypergraph does not have; a ValueError 'must match the number of plotted elements' there is counted as a documented rejection",
     "barycentre of an empty edge is undefined and not demanded; pos=None draws are checked for counts only (positions are not observable)",
